@@ -140,6 +140,10 @@ S_, W_, n_, f_, l_ = z3.Reals("S W n f l")
 TASKS.append(LemmaTask("scaling-chain-closed-form", [W_ > 0, n_ > 0, f_ > 0, l_ > 0], ((((S_ / W_) / n_) / f_) * 2) / l_ == 2 * S_ / (W_ * n_ * f_ * l_),
                        "the chain of in-place scalings equals 2 S / (mw2 N fs W) - the PSD spec of the lemmas above"))
 
+# diffuse_field_hvsr_processing and rpsd: which recordings / components / FFT length / operator arguments / formula give the result
+import contracts.drv_psd as _DRVPSD
+TASKS += _DRVPSD.TASKS
+
 META = dict(
     level="other",
     explanation="proved: _rpds_single_component's accumulation over the windows and its scaling chain (window / rfft / conjugate / real opaque, taper mean "
